@@ -1271,4 +1271,40 @@ example : SegState.tempProgOk [.create, .insert] [.drop] = false ∧
     SegState.run false [.create, .insert] [.drop] exHistory ⟨false, [false, false]⟩ =
       [some (.error .runtime), none, some (.error .other), some (.error .other), some (.error .other)] := by decide
 
+/-! the hypotheses of the remaining round-2 theorems are satisfiable on the example objects -/
+
+example : ∃ e, SegRead.read { exBin with segIndexed := false } .all true { keys := [8], segs := [1], combine := false, relabel := false, rescale := true, skipOverlap := false, dtype := none } = .error e :=
+  segment_number_not_indexed_refused _ _ _ _ (by decide) rfl
+
+/-- 3 and 1 never share a pixel: accepted with the check on, hence (same array) with the check off; relabelling renames 3 ↦ 1, 1 ↦ 2 -/
+example : overlaps exBin [3, 1] [8, 7] = false := by decide
+example : SegRead.read exBin .all true { keys := [8, 7], segs := [3, 1], combine := true, relabel := true, rescale := true, skipOverlap := true, dtype := none } =
+    .ok (.combined [[2, 0, 1], [2, 2, 0]]) :=
+  skip_overlap_checks_only_lifts_the_refusal exBin exBin_wfObj .all true
+    { keys := [8, 7], segs := [3, 1], combine := true, relabel := true, rescale := true, skipOverlap := true, dtype := none } _ (by decide)
+example : combinedSpec exBin [3, 1] true 8 0 = posVal [3, 1] (combinedSpec exBin [3, 1] false 8 0).toNat :=
+  relabel_only_renames exBin [3, 1] [8, 7] (by decide) (by decide) 8 (by decide) 0 (by decide)
+example : (∃ out, SegRead.read exBin .all true { keys := [8, 7], segs := [2, 1], combine := true, relabel := false, rescale := true, skipOverlap := false, dtype := none } = .ok out) ↔
+    ((∃ out, SegRead.read exBin .all true { keys := [8, 7], segs := [2, 1], combine := true, relabel := false, rescale := true, skipOverlap := true, dtype := none } = .ok out) ∧
+      overlaps (effective exBin .all) [2, 1] [8, 7] = false) :=
+  overlap_check_sound_and_complete exBin exBin_wfObj .all true
+    { keys := [8, 7], segs := [2, 1], combine := true, relabel := false, rescale := true, skipOverlap := false, dtype := none } rfl (by decide)
+/-- the same stacked read into the default dtype and into int16 -/
+example : (.stacked 1 [[[0, 0, 1], [1, 0, 0]]] : Out) = .stacked 1 [[[0, 0, 1], [1, 0, 0]]] :=
+  dtype_never_changes_a_value exBin exBin_wfObj .all true
+    { keys := [8], segs := [3, 1], combine := false, relabel := false, rescale := true, skipOverlap := false, dtype := none } (some .i16) _ _
+    (by decide) (by decide)
+/-- the example history meets the hypotheses of the state-independence theorem: started with both tables left behind and the
+pixel array cached it answers as from a clean object -/
+example : SegState.run tempTablesGuarded tempTablesPre tempTablesPost exHistory ⟨true, [true, true]⟩ =
+    SegState.run tempTablesGuarded tempTablesPre tempTablesPost exHistory ⟨false, [false, false]⟩ :=
+  (reads_are_state_independent 2 exHistory
+    (by intro f d c hm
+        simp only [exHistory, List.mem_cons, SegState.Op.read.injEq, List.not_mem_nil, or_false, reduceCtorEq, false_or] at hm
+        rcases hm with h | h | h | h <;> rw [h.1] <;> rfl)
+    (by intro f d c hm
+        simp only [exHistory, List.mem_cons, SegState.Op.read.injEq, List.not_mem_nil, or_false, reduceCtorEq, false_or] at hm
+        rcases hm with h | h | h | h <;> rw [h.2.1, h.2.2])
+    ⟨true, [true, true]⟩ ⟨false, [false, false]⟩ rfl rfl).2
+
 end HdVerif.C02
